@@ -7,7 +7,7 @@ import shutil
 import sys
 
 src, name, confirm = sys.argv[1], sys.argv[2], sys.argv[3]
-results = dict(x.split(':') for x in sys.argv[4:])
+results = dict(x.split(':', 1) for x in sys.argv[4:])
 dst = os.path.join('/verif/seeded', name)
 os.makedirs(dst, exist_ok=True)
 for f in os.listdir(src):
